@@ -135,3 +135,57 @@ Fixpoint wspec (c : wcfg) (ops : list wop) (obs : list Z) : bool :=
     wspec (map (fun b => let '(i, w, _, n) := b in if i =? id then (i, w, a, n) else b) c) r obs'
   | _, _ => false
   end.
+
+(* ================================================================ least connections with slow start (C04 input kind 7)
+   One BalanceRR, Balance(WlcSmooth) with SetSlowStart / Update / SetAvail / SetRestart / clock seam (slow-start layer
+   of Swrr.v) and connection counts.  connNum lives in the BfeBackend object: `cs` maps id -> connNum (0 when absent);
+   Update drops the entries of removed backends (a re-added backend is a new object).  compLCWeight compares with the
+   CURRENT weight (BackendRR.weight), which during a ramp is below the target weight. *)
+Fixpoint conn_of (cs : list (Z * Z)) (id : Z) : Z :=
+  match cs with [] => 0 | (i, n) :: r => if i =? id then n else conn_of r id end.
+Definition conn_set (cs : list (Z * Z)) (id n : Z) : list (Z * Z) := (id, n) :: filter (fun e => negb (fst e =? id)) cs.
+Definition with_conn (cs : list (Z * Z)) (bs : list backend) : list wb := map (fun b => (b, conn_of cs (b_id b))) bs.
+Definition wlc_bal_c (cs : list (Z * Z)) (bs : list backend) : option (Z * list backend) :=
+  match wlc_smooth (with_conn cs bs) with Some (p, l) => Some (p, map fst l) | None => None end.
+Definition wlc_fol_c (cs : list (Z * Z)) (bs : list backend) (p : Z) : option (list backend) :=
+  match wlc_smooth_follow (with_conn cs bs) p with Some l => Some (map fst l) | None => None end.
+Definition conn_step (cs : list (Z * Z)) (o : op) : list (Z * Z) :=
+  match o with
+  | OConn id n => conn_set cs id n
+  | OUpdate conf => filter (fun e => existsb (Z.eqb (fst e)) (map fst conf)) cs
+  | _ => cs
+  end.
+Fixpoint run7 (st : Z * list sb) (cs : list (Z * Z)) (ops : list op) : list (list Z) :=
+  match ops with
+  | [] => []
+  | OPick k :: r => let '(ps, l') := picks2 (wlc_bal_c cs) (fst st) (snd st) k in ps :: run7 (fst st, l') cs r
+  | o :: r => [] :: run7 (apply_op2 st o) (conn_step cs o) r
+  end.
+Fixpoint check7 (st : Z * list sb) (cs : list (Z * Z)) (ops : list op) (obs : list (list Z)) : bool :=
+  match ops, obs with
+  | [], [] => true
+  | OPick k :: r, ps :: obs' =>
+    (Nat.eqb (length ps) k) &&
+    match follow2 (wlc_fol_c cs) (fst st) (snd st) ps with Some l' => check7 (fst st, l') cs r obs' | None => false end
+  | OPick _ :: _, _ => false
+  | o :: r, [] :: obs' => check7 (apply_op2 st o) (conn_step cs o) r obs'
+  | _, _ => false
+  end.
+(* specification: after checkSlowStart, the pick minimises connNum / CURRENT weight among the eligible backends *)
+Definition wcfg7 (cs : list (Z * Z)) (l : list sb) : wcfg :=
+  map (fun x : sb => (b_id (fst x), b_w (fst x), b_av (fst x), conn_of cs (b_id (fst x)))) l.
+Fixpoint spec7_picks (T : Z) (cs : list (Z * Z)) (l : list sb) (ps : list Z) : bool * list sb :=
+  match ps with
+  | [] => (true, l)
+  | p :: r => let l1 := check_ss T l in
+              let '(ok, l2) := spec7_picks T cs l1 r in (minimal_pick (wcfg7 cs l1) p && ok, l2)
+  end.
+Fixpoint spec7 (st : Z * list sb) (cs : list (Z * Z)) (ops : list op) (obs : list (list Z)) : bool :=
+  match ops, obs with
+  | [], [] => true
+  | OPick k :: r, ps :: obs' =>
+    (Nat.eqb (length ps) k) && let '(ok, l') := spec7_picks (fst st) cs (snd st) ps in ok && spec7 (fst st, l') cs r obs'
+  | OPick _ :: _, _ => false
+  | o :: r, [] :: obs' => spec7 (apply_op2 st o) (conn_step cs o) r obs'
+  | _, _ => false
+  end.
